@@ -1463,6 +1463,9 @@ def save_scenes_image_sync(
         scene_list = list(scenes.values())
     else:
         scene_list = list(scenes)
+    # The entry CRCs must be sorted, since the game uses a binary search. Do that first, so the
+    # string pool is filled in the same order a re-save of the parsed file would use.
+    scene_list.sort(key=lambda entry: entry.checksum)
 
     # First, loop through and see if we do have a string pool to reuse.
     pool: list[str] | None = None
@@ -1495,8 +1498,6 @@ def save_scenes_image_sync(
         else:
             # Parse if required, then export.
             entry_to_data[entry] = entry.data.export_binary(add_to_pool)
-    # The entry CRCs must be sorted, since the game uses a binary search.
-    scene_list.sort(key=lambda entry: entry.checksum)
 
     # Finally we can start writing to the file.
     file.write(struct.pack('<4siii', b'VSIF', version, len(scene_list), len(pool)))
